@@ -39,7 +39,7 @@ SIM_LIST = ["fast_nonMarkov_SIR", "fast_nonMarkov_SIS", "discrete_SIR", "builder
 
 
 def plan(tier):
-    n = 2500 if tier == "quick" else 150000
+    n = 15000 if tier == "quick" else 400000
     return [(s, n) for s in SIM_LIST]
 
 
